@@ -583,6 +583,7 @@ func c10Socket(rt *rapid.T) {
 		fmt.Fprintf(os.Stderr, "TRACE %s c10session %s\n", time.Now().Format("15:04:05"), sj)
 	}
 	verdict := isolated("c10session", []string{string(sj)}, nil)
+	verdict = harnessTrouble(verdict)
 	if strings.HasPrefix(verdict, "FAIL:") {
 		rt.Fatalf("%s\nspec %s", verdict, sj)
 	}
